@@ -114,6 +114,39 @@ let () =
            | 'a' -> OAcquire g | 'd' -> ODone (g, v) | 'c' -> OCancelF g | 'r' -> OReadClosed (g, v)
            | 'x' -> OCtxDone g | _ -> failwith "once event") in
          Printf.printf "%s %s\n" id (if once_accepts evs then "ACCEPT" else "REJECT")
+       | "OS" ->
+         (* OS nev ev* : the visible events of an Once execution (a<g> f starts, c<g> f ends cancelled,
+            d<g>.<v> f ends with a result, r<g>.<v> result received, x<g> gave up), replayed on the slot
+            machine generated from once.go; prints the slot at the end *)
+         let n = next_int () in
+         let raw = next_n n (fun () -> next ()) in
+         let gnum t = let body = String.sub t 1 (String.length t - 1) in
+           n_of_int (int_of_string (List.hd (String.split_on_char '.' body))) in
+         let len_taken i = List.length (List.nth paths_taken i) in
+         let rec int_of_nat' x = int_of_nat x in
+         let idx a l = (match path_with a l with Some i -> i | None -> failwith "no such path") in
+         let entered = Hashtbl.create 8 in
+         let steps = Hashtbl.create 8 in   (* remaining SAct steps of a caller inside f *)
+         let evs = List.concat_map (fun t ->
+           let g = gnum t in
+           match t.[0] with
+           | 'a' ->
+             (* the path is decided by how this caller's f ends *)
+             let cancel = List.exists (fun u -> u.[0] = 'c' && gnum u = g) raw in
+             let i = idx (if cancel then AHandBack else AClose) paths_taken in
+             Hashtbl.replace entered g true;
+             Hashtbl.replace steps g (len_taken (int_of_nat' i) - 1);
+             [SEnter g; STake (g, i); SAct g]                 (* ... up to the call of f *)
+           | 'c' | 'd' ->
+             let k = (try Hashtbl.find steps g with Not_found -> 0) in
+             List.init k (fun _ -> SAct g)
+           | 'r' -> [SEnter g; SReadClosed (g, idx ARet paths_closed); SAct g]
+           | 'x' -> [SEnter g; SCtxDone g]
+           | _ -> failwith "once event") raw in
+         Printf.printf "%s %s\n" id
+           (match once_slot_final evs with
+            | None -> "REJECT"
+            | Some SFree -> "ACCEPT free" | Some SClosed -> "ACCEPT closed" | Some (STaken _) -> "ACCEPT taken")
        | "KS" ->
          (* KS ncalls {g host scheme hexkey}* nev ev* : a recorded concurrent Set execution *)
          let ncalls = next_int () in
